@@ -245,6 +245,41 @@ def run(ctx):
         else:
             ctx.evaluations += 1
         sessions.setdefault(cfg_key(sc["runs"]), []).append((sc["id"], out["events"]))
+    # ---------------------------------------------------------------- 3a. signals emitted BY the plugin
+    # the SDK's own server never emits signals, so "signal traffic in both directions" is exercised against a
+    # scripted, correctly behaving peer (mode "client" of the driver): emitted signals for runs with and without a
+    # signalsFromStep channel, before and after the result, interleaved with concurrent and serial Execute calls
+    from props import c08 as C8
+    E = lambda r, emit=False: dict(op="exec", run=r, emit=emit)
+    S = lambda r: dict(op="unsol", kind="sig", run=r)
+    R = lambda r, k="ok": dict(op="reply", run=r, kind=k)
+    emit_ops = [
+        [E("r1", True), S("r1"), R("r1"), E("r2"), S("r2"), R("r2"), E("r3", True), R("r3"), dict(op="close")],
+        [E("r1"), E("r2", True), S("r1"), S("r2"), R("r2"), S("r1"), R("r1"), E("r3"), S("r3"), R("r3", "err"), dict(op="close")],
+        [E("r1", True), E("r2", True), E("r3"), S("r3"), S("r2"), S("r1"), R("r3"), R("r1"), S("r2"), R("r2"), dict(op="close")],
+        [E("r1"), S("r1"), S("r1"), R("r1"), S("r1"), E("r2", True), S("r2"), R("r2"), dict(op="close")],
+    ]
+    esc = [dict(id="emit/%d" % i, mode="client", ops=o) for i, o in enumerate(emit_ops)]
+    esess = []
+    for sc, rr in zip(esc, A.run_driver(ctx, esc, label="c06emit")):
+        out = C8.judge(ctx, sc, rr)
+        ctx.count(sc["id"])
+        if out is not None and not out.get("stuck"):
+            for rid, e in out["results"].items():
+                want = next((o.get("kind", "ok") for o in sc["ops"] if o["op"] == "reply" and o["run"] == rid), None)
+                if rid != "#schema" and want == "ok" and e["st"] != "ok":
+                    ctx.violation(dict(kind="lost_or_wrong_result", step="ok", code=e["st"]), dict(scenario=sc, results=out["results"]))
+            esess.append((sc["id"], out["events"]))
+    for sid, evs0 in esess:
+        sc0 = next(x for x in esc if x["id"] == sid)
+        emitset = sorted(o["run"] for o in sc0["ops"] if o["op"] == "exec" and o.get("emit"))
+        ok, info = A.validate(ctx, [(sid, evs0)], ["r1", "r2", "r3"], 1000, [], [], label="c06emit", inv="TraceInvClientEnv", emit=emitset)
+        if ok:
+            ctx.traces += 1
+        else:
+            evs = evs0
+            ctx.violation(dict(kind="trace_" + info["kind"], event=info["line"]["ev"], violated=str(info.get("violated"))),
+                          dict(session=info.get("session"), line=info["line"], prefix=info.get("prefix"), events=evs[: info["event_index"] + 3]))
     # ---------------------------------------------------------------- 3b. statement-level yield points
     # every statement of atp/client.go and atp/server.go of the tree under test becomes a hold point (build
     # overlay generated now from the current sources), so that a new statement or a moved unlock is explored too
